@@ -399,7 +399,11 @@ class Check:
         ev = {'property_id': self.pid, 'tier': self.tier, 'seed': self.seed, 'level': level, 'coverage': cov,
               'assumptions': self.assumptions, 'wall_s': round(time.time() - self.t0, 2),
               'violations': len(seen) + (1 if (self.broken and not self.violations) else 0)}
-        json.dump(ev, open(os.path.join(VERIF, 'evidence', self.pid + '.json'), 'w'), indent=1, default=str)
+        # evidence/<id>.json describes runs against /repo itself; trial runs against another tree (NV_REPO: seeded
+        # changes, refactorings, repairs under test) must not overwrite it
+        evdir = os.path.join(VERIF, 'evidence') if os.path.realpath(REPO) == '/repo' else os.path.join(VERIF, 'scratch', 'evidence-nvrepo')
+        os.makedirs(evdir, exist_ok=True)
+        json.dump(ev, open(os.path.join(evdir, self.pid + '.json'), 'w'), indent=1, default=str)
         for ln in lines:
             print(ln)
         print('%s %s tier=%s obligations=%d/%d evaluations=%d distinct_nontrivial=%d wall=%.1fs' % (
